@@ -147,7 +147,8 @@ Fixpoint register (ds : list decl) (reg : list decl) : list decl :=
     end
   end.
 
-(* buildCallGraph: graph[name] = callees when there is at least one (a later declaration overwrites) *)
+(* buildCallGraph (repaired: commit "fix: call graph keeps only the calls of the last declaration"):
+   graph[name] = append(graph[name], callees...) when the declaration has at least one callee *)
 Fixpoint build_graph (ds : list decl) (g : list (name * list name)) : list (name * list name) :=
   match ds with
   | [] => g
@@ -155,7 +156,7 @@ Fixpoint build_graph (ds : list decl) (g : list (name * list name)) : list (name
     match d_callees d with
     | [] => build_graph r g
     | cs => if existsb (fun kv => Nat.eqb (fst kv) (d_name d)) g
-            then build_graph r (map (fun kv => if Nat.eqb (fst kv) (d_name d) then (d_name d, cs) else kv) g)
+            then build_graph r (map (fun kv => if Nat.eqb (fst kv) (d_name d) then (d_name d, snd kv ++ cs) else kv) g)
             else build_graph r (g ++ [(d_name d, cs)])
     end
   end.
